@@ -19,6 +19,7 @@ Streams
   aligntensors align_tensor / align_tensors, expand in {False, True}
   lazy         Align of lazy Binary, Contraction.align, Delta.align
   materialize  random lazy terms over Bint variables; value at every point vs the model's `denote`
+  slice        materialize(Slice), slicing and diagonal substitution with slice-valued inputs (oracle only)
   index        ravel / unravel of the model vs numpy on a box
 """
 import itertools
@@ -660,8 +661,9 @@ def aligntensors_stream(ctx, n, use_driver=True):
 # stream: lazy Align / Contraction.align / Delta.align (implementation vs property oracle)
 # ------------------------------------------------------------------------------------------
 
-def lazy_stream(ctx, n):
+def lazy_stream(ctx, n, use_driver=True):
     rng = ctx.rng
+    tie = []        # (request, kind, impl keys / term order, impl value table or None, impl is Align)
     for _ in range(n):
         pool = rng.sample(NAMES, 3)
         sizes = {k: rng.choice([1, 2, 3]) for k in pool}
@@ -681,6 +683,8 @@ def lazy_stream(ctx, n):
             if [k for k, _ in g.terms] != list(names) or dict(g.terms) != dict(d.terms):
                 ctx.fail("input", "C19.delta-align", witness=wit, expected=str(names),
                          got=str([k for k, _ in g.terms]))
+            tie.append((f"C19 deltaalign {sx([Q(k) for k in pool])} {sx([Q(k) for k in names])}",
+                        "delta", [k for k, _ in g.terms], None, False))
             ctx.case(nontrivial_key=("delta", names, tuple(pool)))
             continue
         with reflect:
@@ -710,6 +714,7 @@ def lazy_stream(ctx, n):
         if not full:
             ctx.count("lazy:partial-names-order-" + ("as-tensor-align" if list(g.inputs) == exp_keys else "kept"))
         ev_x = reinterpret(x)
+        vals = []
         for pt in itertools.product(*[range(sizes[k]) for k in keys]):
             env = dict(zip(keys, pt))
             gv = g(**env) if env else reinterpret(g)
@@ -721,12 +726,47 @@ def lazy_stream(ctx, n):
             if float(np.asarray(gv.data)) != float(np.asarray(xv.data)):
                 bad = True
                 break
+            vals.append(int(np.asarray(xv.data)))
         if bad:
             ctx.fail("input", f"C19.lazy-align-{kind}", witness=wit,
                      expected=f"inputs {exp_keys}, same value at every point", got=str(list(g.inputs)))
             continue
+        enc1, enc2 = enc_tensor(obs_tensor(t1)[1]), enc_tensor(obs_tensor(t2)[1])
+        if kind == "binary":
+            term = ["binary", "add", enc1, enc2]
+        elif kind == "contraction":
+            term = ["contract", "add", "mul", [], enc1, enc2]
+        else:
+            term = ["contract", "add", "mul", enc_inputs([(rv, sizes[rv])]), enc1, enc2]
+        tie.append((f"C19 lazyalign {sx(term)} {sx([Q(k) for k in names])} "
+                    f"{sx(enc_inputs([(k, sizes[k]) for k in keys]))}",
+                    kind, list(g.inputs), vals if len(vals) == int(np.prod([sizes[k] for k in keys])) else None,
+                    isinstance(g, Align)))
         ctx.case(nontrivial_key=("lazy", kind, str(sizes), tuple(k1), tuple(k2), names)
                  if len(keys) >= 2 and names else None)
+    if not use_driver or not tie:
+        return
+    answers = ctx.driver.ask([t[0] for t in tie])
+    for (req, kind, ikeys, ivals, is_align), a in zip(tie, answers):
+        if not a.startswith("ok "):
+            ctx.infra_errors.append(f"driver: {a} for {req[:200]}")
+            return
+        p = parse_sx(a[3:])
+        if kind == "delta":
+            ctx.count("lazy:model-delta-order-" + ("agree" if [str(k) for k in p] == ikeys else "DIFFERS"))
+            continue
+        if p and p[0] == "raise":
+            ctx.count("lazy:model-declines")
+            continue
+        mkeys, mwrapped, t_orig, t_aligned = [str(k) for k in p[0]], p[1] == "true", p[2], p[3]
+        if t_orig != t_aligned:
+            ctx.infra_errors.append(f"Lean alignT changed the denotation (contradicts alignT_denote) on {req[:300]}")
+            return
+        ctx.count(f"lazy:model-order-{kind}-" + ("agree" if mkeys == ikeys else "differs"))
+        ctx.count(f"lazy:model-wrapper-{kind}-" + ("agree" if mwrapped == is_align else "differs"))
+        if ivals is not None:
+            mv = [None if v == "none" else int(v) for v in t_orig]
+            ctx.count("lazy:model-values-" + ("agree" if mv == ivals else "DIFFER"))
 
 
 # ------------------------------------------------------------------------------------------
@@ -890,6 +930,114 @@ def materialize_stream(ctx, n, use_driver=True):
 
 
 # ------------------------------------------------------------------------------------------
+# stream: materialize with slice-valued inputs (Python oracle only)
+# ------------------------------------------------------------------------------------------
+
+def py_slice_snippet(c):
+    return f"""
+# C19 replay: materialising slice-valued inputs must not change the denoted function
+import numpy as np, funsor
+from collections import OrderedDict
+from funsor.domains import Bint
+from funsor.tensor import Tensor
+from funsor.terms import Slice
+funsor.set_backend("numpy")
+c = {c!r}
+(s1, e1, st1, n), (s2, e2, st2, m) = c["sl1"], c["sl2"]
+sl1, sl2 = Slice("j", s1, e1, st1, n), Slice("j", s2, e2, st2, m)
+T = Tensor(np.arange(float(n * m * 2)).reshape(n, m, 2), OrderedDict(a=Bint[n], b=Bint[m], c=Bint[2]))
+FAILS = False
+g = Tensor(np.zeros(())).materialize(sl1)
+FAILS = FAILS or list(g.inputs) != ["j"] or g.data.tolist() != list(range(s1, e1, st1))
+r = T(a=sl1)
+for j in range(len(range(s1, e1, st1))):
+    for b in range(m):
+        for cc in range(2):
+            FAILS = FAILS or float(r(j=j, b=b, c=cc).data) != float(T.data[s1 + st1 * j, b, cc])
+if len(range(s1, e1, st1)) == len(range(s2, e2, st2)):
+    d = T(a=sl1, b=sl2)
+    for j in range(len(range(s1, e1, st1))):
+        for cc in range(2):
+            FAILS = FAILS or float(d(j=j, c=cc).data) != float(T.data[s1 + st1 * j, s2 + st2 * j, cc])
+print("FAILS", FAILS)
+"""
+
+
+def slice_stream(ctx, n):
+    from funsor.terms import Slice
+    rng = ctx.rng
+    proto = Tensor(np.zeros(()))
+
+    def gen_slice(size_hint=None):
+        for _ in range(50):
+            dt = rng.choice([1, 2, 3, 4, 5, 6, 6])
+            start = min(rng.choice([0, 0, 1, 2]), dt - 1)
+            step = rng.choice([1, 1, 2, 3])
+            stop = rng.choice([dt, dt, rng.randint(start, dt)])
+            if size_hint is None or len(range(start, stop, step)) == size_hint:
+                return (start, stop, step, dt)
+        return None
+    for _ in range(n):
+        sl1 = gen_slice()
+        k = len(range(sl1[0], sl1[1], sl1[2]))
+        sl2 = gen_slice(k if rng.random() < 0.7 else None) or gen_slice()
+        c = {"stream": "slice", "sl1": list(sl1), "sl2": list(sl2)}
+        py = py_slice_snippet(c)
+        (s1, e1, st1, n1), (s2, e2, st2, m) = sl1, sl2
+        k2 = len(range(s2, e2, st2))
+        a, b = Slice("j", s1, e1, st1, n1), Slice("j", s2, e2, st2, m)
+        T = Tensor(np.arange(float(n1 * m * 2)).reshape(n1, m, 2), OrderedDict(a=Bint[n1], b=Bint[m], c=Bint[2]))
+        ctx.count(f"slice:size={k}")
+        g = run(lambda: proto.materialize(a))
+        if g[0] == "value" and isinstance(g[1], Tensor):
+            if list(g[1].inputs) != ["j"] or ints(g[1].data) != list(range(s1, e1, st1)):
+                ctx.fail("input", "C19.materialize-slice", witness=c, python=py,
+                         expected=str(list(range(s1, e1, st1))), got=str(ints(g[1].data)))
+                continue
+        else:
+            ctx.count("slice:materialize-declined")
+        if k == 0:
+            ctx.case()
+            continue
+        r = run(lambda: T(a=a))
+        bad = None
+        if r[0] == "value" and isinstance(r[1], Tensor):
+            rk = list(r[1].inputs)
+            if sorted(rk) != ["b", "c", "j"]:
+                bad = f"inputs {rk}"
+            else:
+                for j in range(k):
+                    for bb in range(m):
+                        for cc in range(2):
+                            env = {"j": j, "b": bb, "c": cc}
+                            if float(r[1].data[tuple(env[x] for x in rk)]) != float(T.data[s1 + st1 * j, bb, cc]):
+                                bad = f"value at {env}"
+        else:
+            ctx.count("slice:slicing-declined")
+        if bad is None and k == k2:
+            ctx.count("slice:diagonal")
+            d = run(lambda: T(a=a, b=b))
+            if d[0] == "value" and isinstance(d[1], Tensor):
+                dk = list(d[1].inputs)
+                if sorted(dk) != ["c", "j"]:
+                    bad = f"diagonal inputs {dk}"
+                else:
+                    for j in range(k):
+                        for cc in range(2):
+                            env = {"j": j, "c": cc}
+                            if float(d[1].data[tuple(env[x] for x in dk)]) != \
+                                    float(T.data[s1 + st1 * j, s2 + st2 * j, cc]):
+                                bad = f"diagonal value at {env}"
+            else:
+                ctx.count("slice:diagonal-declined")
+        if bad is not None:
+            ctx.fail("input", "C19.slice-input-changes-value", witness=c, python=py,
+                     expected="T[start + step*j, ...] at every point", got=bad)
+            continue
+        ctx.case(nontrivial_key=("slice", sl1, sl2) if k >= 2 else None)
+
+
+# ------------------------------------------------------------------------------------------
 # stream: index arithmetic of the model vs numpy
 # ------------------------------------------------------------------------------------------
 
@@ -938,11 +1086,13 @@ def correspond(ctx):
     aligntensors_stream(ctx, 300 if quick else 4000)
     lazy_stream(ctx, 150 if quick else 1500)
     materialize_stream(ctx, 250 if quick else 3000)
+    slice_stream(ctx, 150 if quick else 1500)
     ctx.exhaustive = True
     ctx.assumptions.append("numpy reshape / transpose / broadcast_to are modelled by their index-level "
                            "specification (row-major ravel/unravel), not verified")
-    ctx.assumptions.append("lazy Align / Contraction.align / Delta.align are tied to the property by the Python "
-                           "oracle only (value at every point, inputs order), not to a Lean model")
+    ctx.assumptions.append("lazy Align / Contraction.align / Delta.align: the gate is the Python oracle (value at every "
+                           "point; inputs order for full permutations); agreement with the Lean model LTerm.alignT / "
+                           "deltaAlign (order, Align wrapper, value table) is measured and reported, not gated")
 
 
 def search(ctx, broken):
@@ -959,7 +1109,10 @@ def search(ctx, broken):
     aligntensors_stream(ctx, 4000, use_driver=False)
     if found():
         return
-    lazy_stream(ctx, 1500)
+    lazy_stream(ctx, 1500, use_driver=False)
     if found():
         return
     materialize_stream(ctx, 3000, use_driver=False)
+    if found():
+        return
+    slice_stream(ctx, 1500)
